@@ -218,6 +218,28 @@ def s_two_db(E):
         E.A2(name='second', val=1)
 
 
+def s_two_db_exc(E):
+    # both databases have an open write transaction when the body fails: both have to be rolled back and
+    # released, whatever happens to the other one
+    try:
+        with db_session:
+            E.A[1].val = 4
+            E.A2(name='second', val=2)
+            flush()
+            raise ValueError('body')
+    except ValueError:
+        pass
+
+
+def s_two_db_rollback(E):
+    with db_session:
+        E.A2(name='third', val=3)
+        E.A[1].val = 5
+        flush()
+        rollback()
+        E.A[1].val = 6
+
+
 def s_flush_error(E):
     with db_session:
         E.A(name='a1', val=7)
@@ -320,7 +342,7 @@ SHAPES = {
     'ddl_create': s_ddl_create, 'ddl_drop': s_ddl_drop, 'ddl_user': s_ddl_user,
     'nested': s_nested, 'commit_more': s_commit_more, 'rollback_more': s_rollback_more,
     'generator': s_generator, 'gen_abandon': s_gen_abandon, 'gen_throw': s_gen_throw,
-    'two_db': s_two_db, 'flush_error': s_flush_error, 'body_exc': s_body_exc, 'allowed_exc': s_allowed_exc,
+    'two_db': s_two_db, 'two_db_exc': s_two_db_exc, 'two_db_rollback': s_two_db_rollback, 'flush_error': s_flush_error, 'body_exc': s_body_exc, 'allowed_exc': s_allowed_exc,
     'raw': s_raw, 'get_conn': s_get_conn, 'for_update': s_for_update, 'retry': s_retry,
     'disconnect_between': s_disconnect_between, 'bulk_delete': s_bulk_delete, 'collection': s_collection,
     'delete_cascade': s_delete_cascade, 'manual_rollback_exit': s_manual_rollback_exit, 'db_commit': s_db_commit,
@@ -483,7 +505,7 @@ def run_case(case, scratch):
     reconnecting = bool(case.get('reconnecting'))
     E.db, E.A, E.B, E.C, E.path = build(scratch, dbkind, reconnecting=reconnecting)
     dbs = [E.db]
-    if shape == 'two_db':
+    if shape.startswith('two_db'):
         E.db2, E.A2, E.B2, E.C2, E.path2 = build(scratch, dbkind, 'second')
         dbs.append(E.db2)
     populate(E)
